@@ -279,3 +279,86 @@ fn c05_cpid_follow_absent_same() {
     assert!(s.settable_data.following.is_some());
     reach!();
 }
+
+// ------------------------------------------------------------------------------------------------
+// C11: the public `set` / followed-command path on the real struct (Settable's provided methods included), so that the
+// "equal command changes nothing / different command restarts" clause does not depend on which stored value the
+// implementation compares with (the Verus unit c11_cpid covers `impl_set` alone, against `self.command`).
+// ------------------------------------------------------------------------------------------------
+
+//@ob fn="<CommandPID<G,E> as Settable<Command,E>>::set" at=src/streams/control.rs:138 prop=C11 clause="set(c) through the public trait method on an ARBITRARY state (any last request, any history): c == current command (derived ==) leaves command and the whole update_state bit-unchanged; c != current stores c and restarts (update_state Ok(None)); always Ok, records c as the last request, does not touch following or the k-values, reads no input"
+#[kani::proof]
+fn c11_cpid_set_equal_noop_different_restarts() {
+    let mut inp = Scripted::new(any_output::<State>());
+    let mut s = any_cp(rf(&mut inp));
+    let pre = snap(&s);
+    let c: Command = kani::any();
+    let same = c == pre.command;
+    let r = s.set(c);
+    assert!(r == Ok(()));
+    let post = snap(&s);
+    if same {
+        assert!(post.command.beq(&pre.command));
+        assert!(up_eq(&post.update_state, &pre.update_state));
+    } else {
+        assert!(post.command.beq(&c));
+        assert!(up_eq(&post.update_state, &Ok(None)));
+    }
+    assert!(post.last_request.beq(&Some(c)));
+    assert!(post.following == pre.following && post.kvals.beq(&pre.kvals));
+    assert!(inp.gets.get() == 0 && inp.updates == 0);
+    reach!();
+}
+
+//@ob fn="<CommandPID<G,E> as Updatable>::update" at=src/streams/control.rs:176 prop=C11 clause="following a getter that presently yields command c: update behaves exactly like set(c) followed by an update that follows nothing -- c == current: no restart, the same step as if nothing were followed; c != current: the step of a restarted controller holding c (error and absent input events; the present-sample formulas of the step are the Verus obligation)"
+#[kani::proof]
+fn c11_cpid_follow_present_is_set_then_step() {
+    let ev = any_output::<State>();
+    kani::assume(!matches!(ev, Ok(Some(_))));
+    let mut inp = Scripted::new(ev);
+    let c: Command = kani::any();
+    let ft: Time = kani::any();
+    let mut fol = Scripted::<Command>::new(Ok(Some(Datum::new(ft, c))));
+    let mut s = any_cp(rf(&mut inp));
+    let same = c == s.command;
+    let mut t = CommandPID {
+        settable_data: SettableData { following: None, last_request: Some(c) },
+        input: rf(&mut inp),
+        command: if same { s.command } else { c },
+        kvals: s.kvals,
+        update_state: if same { s.update_state.clone() } else { Ok(None) },
+    };
+    s.settable_data.following = Some(rf_dyn(&mut fol));
+    let r1 = s.update();
+    let r2 = t.update();
+    assert!(r1.beq(&r2));
+    assert!(up_eq(&s.update_state, &t.update_state));
+    assert!(s.command.beq(&t.command) && s.settable_data.last_request.beq(&Some(c)));
+    assert!(s.settable_data.following.is_some() && s.kvals.beq(&t.kvals));
+    reach!();
+}
+
+//@ob fn="<CommandPID<G,E> as Updatable>::update" at=src/streams/control.rs:176 prop=C11 clause="following a getter that yields the CURRENT command while samples are present: the stored history is not restarted -- the number of stored integration levels grows exactly as when nothing is followed (depth 1->2->3->4->4), the stored sample takes the new time, command unchanged"
+#[kani::proof]
+fn c11_cpid_follow_equal_keeps_history() {
+    let d: Datum<State> = kani::any();
+    let mut inp = Scripted::new(Ok(Some(d)));
+    let mut s = any_cp(rf(&mut inp));
+    kani::assume(a7(&s, &Ok(Some(d))));
+    let c: Command = kani::any();
+    kani::assume(c == s.command);
+    let mut fol = Scripted::<Command>::new(Ok(Some(Datum::new(kani::any(), c))));
+    s.settable_data.following = Some(rf_dyn(&mut fol));
+    let pre_cmd = s.command;
+    let d0 = depth(&s.update_state);
+    let r = s.update();
+    assert!(r == Ok(()));
+    let d1 = depth(&s.update_state);
+    assert!(d1 == if d0 <= 1 { 2 } else if d0 >= 4 { 4 } else { d0 + 1 });
+    match &s.update_state {
+        Ok(Some(u0)) => assert!(u0.time == d.time),
+        _ => assert!(false),
+    }
+    assert!(s.command.beq(&pre_cmd));
+    reach!();
+}
